@@ -56,6 +56,13 @@ UNIT = Unit(
            obligation="a field taken out of a struct value or a variant payload carries the field's type as the lifting re-declared it (the closure's environment struct when a "
                       "closure was stored there), at the same constructor and the same index",
            contract="ensures r matches LiftExpr::EConstrGet { expr: _, constructor: c, field_index: i, ty: t } && c == constructor && i == field_index && constr_get_ty_ok(final(state), constructor, field_index, ty, t),"),
+        Fn(file=L, name="transform_expr", rename="lift_if", ret="r", rules=["attrs", ("strip", "tast::")],
+           cut_from="let then_branch = Box::new(transform_expr(state, scope, *then_branch));", cut_before="@block-end", cut_tail="",
+           sig="fn lift_if(state: &mut State, scope: &mut Scope, cond: Box<LiftExpr>, then_branch: Box<MonoExpr>, else_branch: Box<MonoExpr>, ty: Ty) -> LiftExpr",
+           rewrites=[VC, (re.compile(r"transform_expr\(state, scope, \*(then_branch|else_branch)\)"), r"transform_expr(state, scope, unbox(\1))", "*")],
+           obligation="an `if` whose lifted branches hold closure environments is typed by them (as tuples and calls are), so that the value is still called through its apply "
+                      "function — FAILS on the pinned tree (KNOWN FINDING: the `if` keeps its pre-lifting type; two different closures have two different environment types)",
+           contract="ensures r matches LiftExpr::EIf { cond: _, then_branch: t, else_branch: e, ty: it } && if_branches_typed(final(state), *t, *e, it),"),
         Fn(file=L, name="transform_expr", rename="lift_var", ret="r", rules=["attrs", ("strip", "tast::")],
            cut_from="MonoExpr::EVar { name, ty } => {", cut_inside=True, cut_before="@block-end", cut_tail="",
            sig="fn lift_var(state: &mut State, scope: &mut Scope, name: String, ty: Ty) -> LiftExpr",
